@@ -55,15 +55,23 @@ T parsePlugin(const Json::Value& plugin) {
   ret.name = name.asString();
 
   const auto& json_args = plugin["args"];
-  if (!json_args.isObject()) {
+  if (json_args.isNull()) {
     return ret;
+  }
+  if (!json_args.isObject()) {
+    // returning a nameless plugin makes the compiler reject the config
+    OLOG << "Plugin=" << ret.name << " args must be an object";
+    return {};
   }
 
   for (const auto& key : json_args.getMemberNames()) {
     const auto& value = json_args[key];
     // Value has to be a string, number, or bool
     if (!value.isString() && !value.isNumeric() && !value.isBool()) {
-      return ret;
+      // do not silently drop this and the remaining arguments
+      OLOG << "Plugin=" << ret.name << " arg=" << key
+           << " must be a string, number or bool";
+      return {};
     }
     ret.args[key] = value.asString();
   }
